@@ -551,7 +551,7 @@ class AssembleSim:
             a2 = dict(a)
             a2["h"] = hp
             pp = self._probe_base(inv, a2, xp, hp, j)
-            if np.max(np.abs(pp - px)) > 1e-12:
+            if np.max(np.abs(pp - px)) > 1e-9:
                 self.viol("order_dependence", "mutation kernel changed when rows of the genotype were permuted",
                           x=x, perm=perm, h=h, j=j, p=px, p_permuted=pp)
             self.ctx.counters.inc("order_probe")
@@ -722,7 +722,7 @@ class AssembleSim:
             if pp is not None:
                 for k, y in enumerate(yp):
                     m2[ref.hap_key(y)] = m2.get(ref.hap_key(y), 0.0) + float(pp[k])
-            if set(m1) != set(m2) or any(abs(m1[k] - m2[k]) > 1e-12 for k in m1):
+            if set(m1) != set(m2) or any(abs(m1[k] - m2[k]) > 1e-9 for k in m1):
                 self.viol("order_dependence", "structural move distribution changed when rows of the genotype were permuted",
                           x=x, perm=perm, interval=iv, step_type=st)
             self.ctx.counters.inc("order_probe")
